@@ -196,6 +196,27 @@ def run_qr(c, u):
                         ok = False
                 if not ok:
                     break
+    # out= : the caller hands in the result objects of an EARLIER factorisation (of other data); they must be overwritten
+    # with exactly what a call without out= returns
+    for D in DMENU[tier][-2:]:
+        A = np.zeros((D, P, M, N))
+        A[0] = np.array(bases)
+        A[1:] = fills((M, N), D, P, M + 2 * N + D)
+        B = A[:, ::-1] * 1.5 + 0.0
+        for name, f in [('qr', UTPM.qr)] + ([('qr_full', UTPM.qr_full)] if M >= N else []):
+            case = {'fn': name, 'D': D, 'out': 'reused'}
+            c.out['evals'] += 1
+            c.out['keys'] += ['%s|out=|%d|%d|%d|%d' % (name, M, N, D, u['lo'])]
+            try:
+                Qo, Ro = f(UTPM(B.copy()))
+                Qf, Rf = f(UTPM(A.copy()))
+                r = f(UTPM(A.copy()), out=(Qo, Ro))
+            except Exception as ex:
+                c.fail('C08|%s|out=|raises' % name, case, {'error': '%s: %s' % (type(ex).__name__, str(ex)[:160])})
+                continue
+            if not (np.allclose(Qo.data, Qf.data, rtol=1e-12, atol=1e-13) and np.allclose(Ro.data, Rf.data, rtol=1e-12, atol=1e-13)):
+                c.fail('C08|%s|out= buffers holding an earlier result|%s' % (name, 'square' if M == N else ('tall' if M > N else 'wide')), case,
+                       {'max_dQ': float(np.abs(Qo.data - Qf.data).max()), 'max_dR': float(np.abs(Ro.data - Rf.data).max())})
     c.out['samples'] = [{'factorization': 'qr', 'shape': [M, N], 'base_matrices_in_unit': P, 'example': bases[P // 2].tolist()}]
 
 
@@ -600,6 +621,30 @@ def run_svd(c, u):
                         ok = False
                 if not ok:
                     break
+            # homogeneity: the same data at scale 2^-33 with the gap threshold scaled accordingly (the documented epsilon
+            # argument) has the same U, V and scaled singular values
+            if D == DMENU[tier][-1]:
+                sc = 2.0 ** -33
+                c.out['evals'] += P
+                c.out['keys'] += ['svd scaled|%d|%d|%d|%d' % (M, N, D, i) for i in range(P)]
+                try:
+                    U2, s2, V2 = UTPM.svd(UTPM(A * sc), epsilon=1e-8 * sc)
+                    ok2 = (np.allclose(s2.data / sc, s.data, rtol=1e-9, atol=1e-9) and np.allclose(U2.data, U.data, rtol=1e-9, atol=1e-9)
+                           and np.allclose(V2.data, V.data, rtol=1e-9, atol=1e-9))
+                    if not ok2:
+                        c.fail('C08|svd|scaled data with scaled epsilon differs', dict(case, scale='2^-33'),
+                               {'max_ds': float(np.abs(s2.data / sc - s.data).max()), 'max_dU': float(np.abs(U2.data - U.data).max())})
+                except Exception as ex:
+                    c.fail('C08|svd|scaled raises', dict(case, scale='2^-33'), {'error': '%s: %s' % (type(ex).__name__, str(ex)[:160])})
+                if M == N:
+                    S = A + np.swapaxes(A, -1, -2)
+                    try:
+                        l1, Q1 = UTPM.eigh(UTPM(S.copy()))
+                        l2, Q2 = UTPM.eigh(UTPM(S * sc), epsilon=1e-8 * sc)
+                        if not (np.allclose(l2.data / sc, l1.data, rtol=1e-9, atol=1e-9) and np.allclose(Q2.data, Q1.data, rtol=1e-9, atol=1e-9)):
+                            c.fail('C08|eigh|scaled data with scaled epsilon differs', dict(case, scale='2^-33'), {})
+                    except Exception as ex:
+                        c.fail('C08|eigh|scaled raises', dict(case, scale='2^-33'), {'error': '%s: %s' % (type(ex).__name__, str(ex)[:160])})
 
 
 def run_patterns(c, u):
